@@ -353,6 +353,11 @@ func c10GenHistory(r *gen.Rng, pool *gen.Pool, steps int) *c10Case {
 		case "e.h2g", "e.e2g", "s.h2s":
 			st.Lit = mon.H(r.Bytes(r.Intn(40)))
 			st.Lit2 = mon.H(r.Bytes(1 + r.Intn(40)))
+
+			// now and then a DST on either side of the 255-byte rule (longer ones are replaced by their hash)
+			if r.Intn(4) == 0 {
+				st.Lit2 = mon.H(r.Bytes([]int{255, 256, 257, 288, 300, 511, 512, 544, 1000}[r.Intn(9)]))
+			}
 		case "s.set", "s.add", "s.sub", "s.mul", "s.pow":
 			st.A = argIdx(c10NS)
 		case "s.copy", "s.roundtrip":
